@@ -101,7 +101,7 @@ class Emit:
                 if ty in (("mslice",), ("rb",)):
                     f.outs.append(p["name"])
                 binders.append(s.param_binder(f, dict(p, name=nm), ty))
-            rt = ret_ty(fn["ret"], generics)
+            rt = cfg.get("ret_override") or ret_ty(fn["ret"], generics)
             cfg = dict(cfg)
             cfg["ret_err"] = rt[2] if isinstance(rt, tuple) and rt[0] == "res" else None
             f.cfg = cfg
@@ -338,6 +338,13 @@ def gen_escape(tr, em):
     tr.free_fns["escape_ascii"] = Sig("escape_ascii", ("string",), world="free", hint="esc")
     st = Struct("FixedBuf", methods={"readable": Sig("FbGen.readable", ("slice",), hint="readable")})
     em.translate_fn("fixed-buffer/src/lib.rs", "escape_ascii", "fb_escape_ascii", {"struct": st, "monad": "MF"}, self_like="FixedBuf")
+    # impl Debug for FixedBuf: fmt(&self, f) = write!(f, "...", SIZE, SIZE - self.write_index, self.len(), self.escape_ascii()); the model's value is the text
+    o.append("Section D.\nVariable SIZE : Z.\nVariable chk : bool.\n")
+    dst = Struct("FixedBuf", fields={"write_index": ("get_write_index", None, "usize"), "read_index": ("get_read_index", None, "usize")},
+                 methods={"len": Sig("FbGen.len chk", "usize", hint="len"), "escape_ascii": Sig("fb_escape_ascii", ("string",), hint="esc")})
+    em.translate_fn("fixed-buffer/src/lib.rs", "fmt", "debug_fmt", {"struct": dst, "monad": "MF", "fmt_fn": True, "param_types": {"f": ("skip",)},
+                                                                   "ret_override": ("string",)}, trait="core::fmt::Debug", self_like="FixedBuf")
+    o.append("End D.\n")
 
 
 def main(ast_path, outdir):
